@@ -103,6 +103,8 @@ pub struct UnitStats {
     pub decided_by_interval: u64,
     pub decided_by_cache: u64,
     pub simplified_nodes: u64,
+    /// power-of-two scaling rewrites (exactness assumed, validated per witness)
+    pub scale_rewrites: u64,
     pub wall_s: f64,
     pub internal_errors: Vec<String>,
     pub unexplored: Vec<String>,
@@ -167,6 +169,9 @@ fn regime_flip(c: &Ctx, d: &Decision, seed: u64) -> Option<(String, u32)> {
             let mut x = dag::default_value(&vi.name, Dom::EnergyPos, seed ^ 0x5bd1e995);
             if x == 0.0 {
                 x = 1.0;
+            }
+            if vi.lo > 0.0 && vi.hi.is_finite() {
+                x = x.max(vi.lo).min(vi.hi);
             }
             x
         }
@@ -527,6 +532,7 @@ impl Explorer {
             stats.decided_by_interval += ctx.stats.decided_interval;
             stats.decided_by_cache += ctx.stats.decided_cache;
             stats.simplified_nodes += ctx.stats.simplified;
+            stats.scale_rewrites += ctx.scale_rewrites;
             for (l, n) in ctx.lemma_uses.iter().chain(ctx.lemma_uses_q.borrow().iter()) {
                 *stats.lemmas_used.entry(l.to_string()).or_insert(0) += n;
             }
